@@ -38,32 +38,46 @@ func printStmt(sb *strings.Builder, s Stmt, st Style) {
 		sb.WriteString(braces(Join(append([]string{n.Name, "="}, Tokens(n.E, st)...), st), st))
 	case *Assign:
 		printStmt(sb, *n, st)
+	case Comment:
+		sb.WriteString("{{--" + st.open("c") + n.Body + "--}}" + st.close())
+	case Dump:
+		sb.WriteString("@dump(" + st.open("a"))
+		for i, a := range n.Args {
+			if i > 0 {
+				sb.WriteString(", ")
+			}
+			sb.WriteString(Source(a, st))
+		}
+		sb.WriteString(")" + st.close())
 	case If:
 		for i, c := range n.Conds {
 			if i == 0 {
-				sb.WriteString("@if(")
+				sb.WriteString("@if(" + st.open("a"))
 			} else {
-				sb.WriteString("@elseif(")
+				sb.WriteString("@elseif(" + st.open("a"))
 			}
 			sb.WriteString(Source(c, st))
-			sb.WriteString(")")
+			sb.WriteString(")" + st.close())
+			if i == 0 {
+				sb.WriteString(st.open("b"))
+			}
 			sb.WriteString(PrintStmts(n.Bodies[i], st))
 		}
 		if n.Else != nil {
 			sb.WriteString("@else")
 			sb.WriteString(PrintStmts(n.Else, st))
 		}
-		sb.WriteString("@end")
+		sb.WriteString("@end" + st.close())
 	case Each:
-		sb.WriteString("@each(" + n.Var + " in " + Source(n.Arr, st) + ")")
+		sb.WriteString("@each(" + st.open("a") + n.Var + " in " + Source(n.Arr, st) + ")" + st.close() + st.open("b"))
 		sb.WriteString(PrintStmts(n.Body, st))
 		if n.Else != nil {
 			sb.WriteString("@else")
 			sb.WriteString(PrintStmts(n.Else, st))
 		}
-		sb.WriteString("@end")
+		sb.WriteString("@end" + st.close())
 	case For:
-		sb.WriteString("@for(")
+		sb.WriteString("@for(" + st.open("a"))
 		if n.Init != nil {
 			sb.WriteString(Join(append([]string{n.Init.Name, "="}, Tokens(n.Init.E, st)...), st))
 		}
@@ -78,36 +92,37 @@ func printStmt(sb *strings.Builder, s Stmt, st Style) {
 		case Print:
 			sb.WriteString(Source(p.E, st))
 		}
-		sb.WriteString(")")
+		sb.WriteString(")" + st.close() + st.open("b"))
 		sb.WriteString(PrintStmts(n.Body, st))
 		if n.Else != nil {
 			sb.WriteString("@else")
 			sb.WriteString(PrintStmts(n.Else, st))
 		}
-		sb.WriteString("@end")
+		sb.WriteString("@end" + st.close())
 	case Break:
 		sb.WriteString("@break")
 	case Continue:
 		sb.WriteString("@continue")
 	case BreakIf:
-		sb.WriteString("@breakIf(" + Source(n.E, st) + ")")
+		sb.WriteString("@breakIf(" + st.open("a") + Source(n.E, st) + ")" + st.close())
 	case ContinueIf:
-		sb.WriteString("@continueIf(" + Source(n.E, st) + ")")
+		sb.WriteString("@continueIf(" + st.open("a") + Source(n.E, st) + ")" + st.close())
 	case Component:
-		sb.WriteString("@component(" + QuoteString(n.Name, '"'))
+		sb.WriteString("@component(" + st.open("a") + st.quote(n.Name, '"'))
 		if n.Args != nil {
 			sb.WriteString(", " + Source(*n.Args, st))
 		}
-		sb.WriteString(")")
+		sb.WriteString(")" + st.close())
 		if len(n.Slots) > 0 {
 			for _, sl := range n.Slots {
 				if sl.Name == "" {
 					sb.WriteString("@slot")
 				} else {
-					sb.WriteString("@slot(" + QuoteString(sl.Name, '"') + ")")
+					sb.WriteString("@slot(" + st.open("a") + st.quote(sl.Name, '"') + ")" + st.close())
 				}
+				sb.WriteString(st.open("b"))
 				sb.WriteString(PrintStmts(sl.Body, st))
-				sb.WriteString("@end")
+				sb.WriteString("@end" + st.close())
 			}
 			sb.WriteString("@end")
 		}
@@ -115,19 +130,19 @@ func printStmt(sb *strings.Builder, s Stmt, st Style) {
 		if n.Name == "" {
 			sb.WriteString("@slot")
 		} else {
-			sb.WriteString("@slot(" + QuoteString(n.Name, '"') + ")")
+			sb.WriteString("@slot(" + st.open("a") + st.quote(n.Name, '"') + ")" + st.close())
 		}
 	case Reserve:
-		sb.WriteString("@reserve(" + QuoteString(n.Name, '"') + ")")
+		sb.WriteString("@reserve(" + st.open("a") + st.quote(n.Name, '"') + ")" + st.close())
 	case Use:
-		sb.WriteString("@use(" + QuoteString(n.Name, '"') + ")")
+		sb.WriteString("@use(" + st.open("a") + st.quote(n.Name, '"') + ")" + st.close())
 	case Insert:
 		if n.Block != nil {
-			sb.WriteString("@insert(" + QuoteString(n.Name, '"') + ")")
+			sb.WriteString("@insert(" + st.open("a") + st.quote(n.Name, '"') + ")" + st.close() + st.open("b"))
 			sb.WriteString(PrintStmts(n.Block, st))
-			sb.WriteString("@end")
+			sb.WriteString("@end" + st.close())
 		} else {
-			sb.WriteString("@insert(" + QuoteString(n.Name, '"') + ", " + Source(n.E, st) + ")")
+			sb.WriteString("@insert(" + st.open("a") + st.quote(n.Name, '"') + ", " + Source(n.E, st) + ")" + st.close())
 		}
 	}
 }
